@@ -71,7 +71,7 @@ theorem step_hist {σ σ' : St} (a : Act) (h : σ.step a = some σ') :
   | dropOoo => obtain ⟨_, _, _, rfl⟩ := dropOoo_spec h; rfl
   | gc f => obtain ⟨_, _, rfl⟩ := gc_spec h; rfl
   | closeBegin => obtain ⟨_, rfl⟩ := closeBegin_spec h; rfl
-  | closeFiles => obtain ⟨_, _, _, _, _, rfl⟩ := closeFiles_spec h; rfl
+  | closeFiles => obtain ⟨_, _, _, _, rfl⟩ := closeFiles_spec h; rfl
 
 /-- the ghost history is exactly the acknowledged rows of the schedule, newest first. -/
 theorem run_hist : ∀ (acts : List Act) (σ σ' : St), run σ acts = some σ' →
@@ -281,7 +281,7 @@ theorem unlink_only_unreferenced {σ σ' : St} (hreach : Reach σ) (a : Act) (h 
     · subst hg; exact Or.inr hr'
     · dsimp only at hu; rw [upd_other _ _ _ _ hg] at hu; exact Or.inl hu
   | closeBegin => obtain ⟨_, rfl⟩ := closeBegin_spec h; exact Or.inl hu
-  | closeFiles => obtain ⟨_, _, _, _, _, rfl⟩ := closeFiles_spec h; exact Or.inl hu
+  | closeFiles => obtain ⟨_, _, _, _, rfl⟩ := closeFiles_spec h; exact Or.inl hu
 
 /-! ### T4 `fields_from_acked_writes` -/
 
@@ -304,12 +304,48 @@ theorem hist_cells_from_writes (acts : List Act) (σ : St) (hrun : run St.init a
 
 /-! ### close -/
 
-/-- the closer's second step waits for the flush in flight, for compactions and merges, and
-for every open query (`waitSnapshot`, `MmsTables.Wait`, `tsspFile.wg`). -/
+/-- the closer's second step waits for the flush in flight and for compactions and merges
+(`waitSnapshot`, `MmsTables.Wait`). It does not wait for open queries (see `Model`): a query
+that holds files when they are closed gets an error on its next read, not torn data. -/
 theorem closeFiles_waits {σ σ' : St} (h : σ.closeFiles = some σ') :
-    σ.snapshot = none ∧ σ.busy = [] ∧ σ.merging = none ∧ σ.views = [] := by
-  obtain ⟨_, h1, h2, h3, h4, _⟩ := closeFiles_spec h
-  exact ⟨h1, h2, h3, h4⟩
+    σ.snapshot = none ∧ σ.busy = [] ∧ σ.merging = none := by
+  obtain ⟨_, h1, h2, h3, _⟩ := closeFiles_spec h
+  exact ⟨h1, h2, h3⟩
+
+/-- files are closed only by `closeFiles`: while the shard is open every view is readable. -/
+theorem readable_while_open {σ : St} (h : Reach σ) (hc : σ.closed = false) (v : View) :
+    σ.readable v = true := by
+  have : σ.filesClosed = false := by
+    induction h with
+    | init => rfl
+    | step a hr hs ih =>
+      rename_i σ1 σ2
+      cases a with
+      | closeFiles =>
+        obtain ⟨_, _, _, _, rfl⟩ := closeFiles_spec hs
+        obtain ⟨hcl, _⟩ := closeFiles_spec hs
+        simp at hc
+        rw [hcl] at hc; cases hc
+      | closeBegin => obtain ⟨_, rfl⟩ := closeBegin_spec hs; simp at hc
+      | write b => obtain ⟨_, _, _, rfl⟩ := write_spec hs; exact ih hc
+      | switch => obtain ⟨_, _, _, rfl⟩ := switch_spec hs; exact ih hc
+      | publish o u => obtain ⟨_, _, _, _, _, _, _, _, _, rfl⟩ := publish_spec hs; exact ih hc
+      | dropSnapshot => obtain ⟨_, _, _, rfl⟩ := dropSnapshot_spec hs; exact ih hc
+      | takeView c => obtain ⟨_, rfl⟩ := takeView_spec hs; exact ih hc
+      | openCursors i => obtain ⟨_, _, _, rfl⟩ := openCursors_spec hs; exact ih hc
+      | readView i =>
+        simp only [St.step] at hs
+        split at hs
+        · cases hs; exact ih hc
+        · cases hs
+      | release i => obtain ⟨_, _, rfl⟩ := release_spec hs; exact ih hc
+      | plan fs => rw [plan_spec hs] at hc ⊢; exact ih hc
+      | replaceOrd old new => obtain ⟨_, _, _, _, rfl⟩ := replaceOrd_spec hs; exact ih hc
+      | replaceOoo old new => obtain ⟨_, _, _, _, _, rfl⟩ := replaceOoo_spec hs; exact ih hc
+      | mergeReplace grp old new => obtain ⟨_, _, _, _, _, _, _, _, rfl⟩ := mergeReplace_spec hs; exact ih hc
+      | dropOoo => obtain ⟨_, _, _, rfl⟩ := dropOoo_spec hs; exact ih hc
+      | gc f => obtain ⟨_, _, rfl⟩ := gc_spec hs; exact ih hc
+  simp [St.readable, this]
 
 /-- after `closeBegin` no write is acknowledged any more. -/
 theorem no_write_after_close {σ : St} (h : Reach σ) (hc : σ.closed = true) (b : List Row) :
